@@ -53,7 +53,9 @@ class RunEval:
                     raise AbsRaise(Obj(None, {"__traceback__": _tb(6)}, name="ValueError"))
                 # the user's exception with the traceback entries of the user's own frames (a function created by exec in a bare
                 # namespace: its globals have no __name__); the evaluator adds the entries of the interpreted uberjob frames
-                self.raised = Obj(None, {"__traceback__": _user_tb(self.user_frames), "__tb_tracking__": True}, name="UserError")
+                stack = getattr(self.w.interp, "env_stack", [])
+                caller = self.w.interp.frame_of(stack[-1]) if stack else None
+                self.raised = Obj(None, {"__traceback__": _user_tb(self.user_frames, caller), "__tb_tracking__": True}, name="UserError")
                 raise AbsRaise(self.raised)
             return "V" + tag
         return Stub("fn_" + tag, fn)
@@ -85,7 +87,7 @@ class RunEval:
             return e.value
 
 
-def find_token(roots, token):
+def find_token(roots, token, skip_attrs=()):
     """Search the abstract heap reachable from `roots` for an object whose `.value` is `token` (or the token itself held in a
     container).  A closure reaches exactly its free variables.  -> description of the reference path, or None."""
     from ..absval import Closure
@@ -103,6 +105,8 @@ def find_token(roots, token):
             continue
         if isinstance(v, Obj):
             for k, x in v.attrs.items():
+                if k in skip_attrs:
+                    continue
                 if x == token and isinstance(x, str):
                     return f"{path}.{k}"
                 stack.append((x, f"{path}.{k}"))
@@ -130,12 +134,16 @@ def _tb(n):
     return tb
 
 
-def _user_tb(n):
+def _user_tb(n, caller_frame=None):
+    """Traceback entries of the user's own n frames (outermost first); each frame's f_back is its caller - the outermost user
+    frame was called from `caller_frame`, the interpreted uberjob activation that invoked the user's function."""
+    frames = []
+    for i in range(n):
+        frames.append(Obj(None, {"f_code": Obj(None, {"co_filename": "<string>", "co_name": f"user{i}"}, name="code"), "f_globals": {}, "f_locals": {},
+                                 "f_back": frames[-1] if frames else caller_frame, "f_lineno": 1}, name=f"frame:user{i}"))
     tb = None
     for i in reversed(range(n)):
-        frame = Obj(None, {"f_code": Obj(None, {"co_filename": "<string>", "co_name": f"user{i}"}, name="code"), "f_globals": {}, "f_locals": {},
-                           "f_back": None, "f_lineno": 1}, name=f"frame:user{i}")
-        tb = Obj(None, {"tb_next": tb, "tb_frame": frame, "tb_lineno": 1, "tb_lasti": 0}, name=f"tb:user{i}")
+        tb = Obj(None, {"tb_next": tb, "tb_frame": frames[i], "tb_lineno": 1, "tb_lasti": 0}, name=f"tb:user{i}")
     return tb
 
 
@@ -171,11 +179,19 @@ def rule_failure_path(ctx, rr, rid_cause=None, rid_retained=None):
                    f"evaluated with a call failing in a {label.replace('-', ' ')} (exec-created function, custom retry): the callback {got} - the "
                    f"exception reported for the call is not the one it raised")
         if rid_retained and isinstance(err, Obj):
-            where = find_token([("the carrier kept by the engine", err)], "Vx")
+            where = find_token([("the carrier kept by the engine", err)], "Vx", skip_attrs=("f_back",))
             ctx.ob(rid_retained, f"{rr.runcb.short}/failure-retains-arguments/{label}", where is None, loc(rr.runcb),
                    "evaluated: the argument values of the failed call are unreachable from the error the engine keeps" if where is None else
                    f"evaluated with a call failing in a {label.replace('-', ' ')}: the argument value of the failed call is still referenced through "
                    f"{where}: inputs of a failed call stay alive while the run continues")
+            if where is None and n_user:
+                # ... and through the callers of the frames the user's traceback legitimately keeps (frame.f_back): the user's
+                # frame was called from BoundCall.run, whose locals are the argument values
+                where2 = find_token([("the carrier kept by the engine", err)], "Vx")
+                ctx.ob(rid_retained, "RUN/first-failure-pins-arguments-through-f_back", where2 is None, loc(rr.runcb),
+                       "evaluated: the argument values of the failed call are unreachable also through the caller frames of the kept traceback" if where2 is None else
+                       f"the error the engine keeps until the run ends (the first failure) references the failed call's argument values through "
+                       f"{where2}: the frame that invoked the user's function stays alive as f_back of the user's frame in the kept traceback")
 
 
 def rule_run_callback(ctx, rr, rid_binding=None, rid_slots=None, rid_release=None, rid_bracket=None):
